@@ -1,7 +1,7 @@
 (* C03 - positional placeholders and the argument list correspond one-to-one.
    Statements only; every proof is [exact] of a lemma of Model/WArgs.v. *)
 From Coq Require Import String List.
-From QRB Require Import Base.Bytes Model.W Model.Values Model.Compile Model.WArgs.
+From QRB Require Import Base.Bytes Model.W Model.Values Model.Compile Model.WArgs Model.Api Model.Ctor Model.CtorFacts.
 Import ListNotations.
 
 Section C03.
@@ -34,6 +34,14 @@ Section C03.
     - exact (proj1 (placeholders_enumerate V validI validT o sup w sql a errs H)).
     - exact (substitution_is_inline V validI validT o sup w sql a errs H).
   Qed.
+
+  (* the constructor level: Args(v1 .. vn) - as modelled in Model/Ctor.v and compared call by call with the
+     implementation - binds exactly v1 .. vn, one slot each, in order, whether or not values repeat *)
+  Theorem C03_args_one_slot_per_value :
+    forall o sup (vs : list V) r,
+      lookup_h V "Args" exp_ctors [AAnys vs] = Some r ->
+      exists sql, to_sql validI validT o sup (compile r) = ROk sql (map Some vs) [].
+  Proof. exact (args_one_slot_each V validI validT). Qed.
 End C03.
 
 (* non-vacuity: two equal values and a reused name really produce three slots *)
@@ -47,4 +55,5 @@ Proof. vm_compute. reflexivity. Qed.
 Print Assumptions C03_placeholders_enumerate.
 Print Assumptions C03_substitution_restores_composition.
 Print Assumptions C03_any_writer.
+Print Assumptions C03_args_one_slot_per_value.
 Print Assumptions C03_example.
